@@ -537,7 +537,9 @@ PLANS["C04"] = {
         "once (directly from the kernel before the switch, through the library after), before any action, with the same info pointer "
         "and a context; every dispatch bracket of the signal contains exactly one previous-handler call, first (none for "
         "default/ignore); process death = violation. A third of the site list per (disposition, signal) in quick (sharded by seed), "
-        "all of it in thorough. Instruction-step sweep: the registering thread single-steps itself from the call of the first "
+        "all of it in thorough. Stalled-dispatch sweep (both tiers, complete): one delivery inside the sigaction-to-publication window "
+        "is parked at every failpoint its dispatch passes (sequence from a calibration run) while the registration is let go and a "
+        "third thread first-registers another signal; the previous handler must have run exactly once. Instruction-step sweep: the registering thread single-steps itself from the call of the first "
         "registration and from every hook arrival inside it, and the delivery is raised at the k-th instruction after that point, for "
         "every k up to the next hook arrival (every 5th in quick), with and without another signal taken over first. "
         "distinct = (disposition, std/rt, site#occurrence, bombard, slot-or-fallback path)",
